@@ -370,22 +370,22 @@ pub fn fixed_pat<const N: usize, const WHICH: u8>(p: &[u8], alpha: &[u8]) {
     kani::cover!(hits == 0, "no occurrence");
 }
 // pattern families: fib = Fibonacci word, ruler = abacabad, nest = abaabaa (three nested borders), aaa = unary, acag
-inst!(c08_kmp_fix_nest_n12, 258, fixed_pat::<12, 2>(b"abaabaa", b"abc"));
-inst!(c08_kmp_fix_ruler_n12, 258, fixed_pat::<12, 2>(b"abacabad", b"abcd"));
-inst!(c08_kmp_fix_fib_n12, 258, fixed_pat::<12, 2>(b"abaababa", b"abc"));
-inst!(c08_kmp_fix_aaa_n7, 258, fixed_pat::<7, 2>(b"aaa", b"ab"));
-inst!(c08_kmp_fix_acag_n8, 258, fixed_pat::<8, 2>(b"acag", b"acg"));
-inst!(c08_bndm_fix_nest_n10, 258, fixed_pat::<10, 1>(b"abaabaa", b"abc"));
-inst!(c08_bndm_fix_aaa_n6, 258, fixed_pat::<6, 1>(b"aaa", b"ab"));
-inst!(c08_bndm_fix_acag_n6, 258, fixed_pat::<6, 1>(b"acag", b"acg"));
-inst!(c08_bndm_fix_ruler_n10, 258, fixed_pat::<10, 1>(b"abacabad", b"abcd"));
-inst!(c08_shiftand_fix_nest_n12, 258, fixed_pat::<12, 0>(b"abaabaa", b"abc"));
-inst!(c08_shiftand_fix_aaa_n7, 258, fixed_pat::<7, 0>(b"aaa", b"ab"));
-inst!(c08_horspool_fix_nest_n10, 258, fixed_pat::<10, 3>(b"abaabaa", b"abc"));
-inst!(c08_horspool_fix_aaa_n6, 258, fixed_pat::<6, 3>(b"aaa", b"ab"));
-inst!(c08_horspool_fix_acag_n7, 258, fixed_pat::<7, 3>(b"acag", b"acg"));
-inst!(c08_horspool_fix_a_n3, 258, fixed_pat::<3, 3>(b"a", b"ab"));
-inst!(c08_bom_fix_nest_n10, 258, fixed_pat::<10, 4>(b"abaabaa", b"abc"));
-inst!(c08_bom_fix_aaa_n6, 258, fixed_pat::<6, 4>(b"aaa", b"ab"));
-inst!(c08_bom_fix_acag_n7, 258, fixed_pat::<7, 4>(b"acag", b"acg"));
-inst!(c08_bom_fix_a_n3, 258, fixed_pat::<3, 4>(b"a", b"ab"));
+inst!(c08_kmp_fix_nest_n12, 15, fixed_pat::<12, 2>(&[0, 1, 0, 0, 1, 0, 0], &[0, 1, 2]));
+inst!(c08_kmp_fix_ruler_n12, 15, fixed_pat::<12, 2>(&[0, 1, 0, 2, 0, 1, 0, 3], &[0, 1, 2, 3]));
+inst!(c08_kmp_fix_fib_n12, 15, fixed_pat::<12, 2>(&[0, 1, 0, 0, 1, 0, 1, 0], &[0, 1, 2]));
+inst!(c08_kmp_fix_aaa_n7, 10, fixed_pat::<7, 2>(&[0, 0, 0], &[0, 1]));
+inst!(c08_kmp_fix_acag_n8, 11, fixed_pat::<8, 2>(&[0, 2, 0, 4], &[0, 2, 4]));
+inst!(c08_bndm_fix_nest_n10, 13, fixed_pat::<10, 1>(&[0, 1, 0, 0, 1, 0, 0], &[0, 1, 2]));
+inst!(c08_bndm_fix_aaa_n6, 9, fixed_pat::<6, 1>(&[0, 0, 0], &[0, 1]));
+inst!(c08_bndm_fix_acag_n6, 9, fixed_pat::<6, 1>(&[0, 2, 0, 4], &[0, 2, 4]));
+inst!(c08_bndm_fix_ruler_n10, 13, fixed_pat::<10, 1>(&[0, 1, 0, 2, 0, 1, 0, 3], &[0, 1, 2, 3]));
+inst!(c08_shiftand_fix_nest_n12, 15, fixed_pat::<12, 0>(&[0, 1, 0, 0, 1, 0, 0], &[0, 1, 2]));
+inst!(c08_shiftand_fix_aaa_n7, 10, fixed_pat::<7, 0>(&[0, 0, 0], &[0, 1]));
+inst!(c08_horspool_fix_nest_n10, 258, fixed_pat::<10, 3>(&[0, 1, 0, 0, 1, 0, 0], &[0, 1, 2]));
+inst!(c08_horspool_fix_aaa_n6, 258, fixed_pat::<6, 3>(&[0, 0, 0], &[0, 1]));
+inst!(c08_horspool_fix_acag_n7, 258, fixed_pat::<7, 3>(&[0, 2, 0, 4], &[0, 2, 4]));
+inst!(c08_horspool_fix_a_n3, 258, fixed_pat::<3, 3>(&[0], &[0, 1]));
+inst!(c08_bom_fix_nest_n10, 14, fixed_pat::<10, 4>(&[0, 1, 0, 0, 1, 0, 0], &[0, 1, 2]));
+inst!(c08_bom_fix_aaa_n6, 10, fixed_pat::<6, 4>(&[0, 0, 0], &[0, 1]));
+inst!(c08_bom_fix_acag_n7, 11, fixed_pat::<7, 4>(&[0, 2, 0, 4], &[0, 2, 4]));
+inst!(c08_bom_fix_a_n3, 7, fixed_pat::<3, 4>(&[0], &[0, 1]));
